@@ -179,6 +179,7 @@ def configs(tier):
     c = [("namer.keywords(248 x 4 shapes)", "kw"),
          ("namer.flat.k1-2(full menu, ordered)", "flat12")]
     c += [("namer.flat.k3(full menu, ordered).part%02d/%d" % (p, NPART["flat3"]), "flat3", p) for p in range(NPART["flat3"])]
+    c += [("namer.suffix_chain.k4(x / x_1 / x_2 / reg overrides and names, ordered)", "chain")]
     c += [("namer.related.k2-3(reduced menu, ordered).part%02d/%d" % (p, NPART["relq"]), "relq", p) for p in range(NPART["relq"])]
     if tier == "thorough":
         c += [("namer.flat.k4(full menu less override always, multisets x 2 creation orders).part%03d/%d" % (p, NPART["flat4"]), "flat4", p) for p in range(NPART["flat4"])]
@@ -197,6 +198,11 @@ def scenarios(kind, part):
         for k in (1, 2):
             for specs in itertools.product(FULL, repeat=k):
                 yield specs, (-1,) * k, False
+    elif kind == "chain":
+        # chains of suffix-like names: x, x, x_1, x_2 ... (a repeated name has to skip SEVERAL taken suffixes)
+        menu4 = [(0, 0), (0, 1), (0, 2), (0, 3), (0, 4), (2, 0)]
+        for specs in itertools.product(menu4, repeat=4):
+            yield specs, (-1,) * 4, False
     elif kind == "flat3":
         n = NPART[kind]
         for i, specs in enumerate(itertools.product(FULL, repeat=3)):
